@@ -136,6 +136,12 @@ def scenario(rnd, texts):
             req(rnd.choice(METHODS), rnd.choice([{}, {"textDocument": 5}, None, {"textDocument": {"uri": 7}, "position": "x"}]))
         else:
             note(rnd.choice(["$/cancelRequest", "workspace/didChangeConfiguration", "$/setTrace"]), {"id": 1})
+        if rnd.random() < 0.2:
+            # a correctly framed body that is not a JSON-RPC message: broken syntax, a body cut short, an empty
+            # body, JSON that is not an object
+            full = json.dumps({"jsonrpc": "2.0", "id": 900 + len(msgs), "method": "textDocument/hover", "params": {"textDocument": {"uri": "file:///tmp/x.gdn"}}})
+            raw = rnd.choice([b'{"id": 7, oops}', full[:rnd.randint(1, len(full) - 1)].encode(), b"", b"[1, 2]", b"42", b'"text"', b'{"jsonrpc": "2.0", "method": "x", "params": "unterminated'])
+            msgs.append(({"__raw__": raw.decode("utf-8", "replace")}, {"ev": "send", "kind": "garbage", "id": "", "method": "", "uri": "", "text": ""}))
     end = rnd.random()
     if end < 0.7:
         req("shutdown", None)
@@ -158,7 +164,7 @@ def record(seed, texts):
             events.append({k: v for k, v in ab.items() if k not in ("doc_text", "closing")})
             if "doc_text" in ab:
                 diag_texts.setdefault(ab["uri"], []).append((ab["text"], ab["doc_text"]))
-            ok = c.send(m)
+            ok = c.send(m) if "__raw__" not in m else c.send(None, raw=m["__raw__"].encode())
             if not ok:
                 break
             want_id = m.get("id")
